@@ -1170,10 +1170,14 @@ bool tree<Key, Value, ValueEqual>::compare(
               return false;
             }
           }
-          if (compare_left_to_right && po.default_is_top() && !t->is_leaf()) {
+          // t binds some key other than s's key if it is a node or if
+          // it is a leaf with a different key.
+          if (compare_left_to_right && po.default_is_top() &&
+              (!t->is_leaf() || !value_)) {
             return false;
           }
-          if (!compare_left_to_right && !po.default_is_top() && !t->is_leaf()) {
+          if (!compare_left_to_right && !po.default_is_top() &&
+              (!t->is_leaf() || !value_)) {
             return false;
           }
         } else if (t->is_leaf()) {
